@@ -374,6 +374,77 @@ fn run_c15(ctx: &mut Ctx, rng: &mut Rng, thorough: bool, shard: usize, shards: u
             Err(_) => continue,
         };
         eval_owned_bytes(ctx, &wire);
+        // (c) the three public building blocks of a body structure that `Response::into_owned` does
+        // not reach: BodyFields, BodyExt1Part, BodyExtMPart (cut out of a generated body structure,
+        // converted, and compared through a body structure rebuilt from them)
+        if i % 3 == 0 {
+            let r = std::panic::catch_unwind(|| {
+                // the types are not Clone: generate the same body structure once per block
+                let split = |seed: u64| {
+                    let mut r = Rng::new(seed);
+                    let b = vh_proto::gen::gen_body_structure(&mut r, &cfg, 0);
+                    match b {
+                        BodyStructure::Basic { common, other, extension } => (common, other, extension),
+                        BodyStructure::Text { common, other, extension, .. } => (common, other, extension),
+                        BodyStructure::Message { common, other, extension, .. } => (common, other, extension),
+                        BodyStructure::Multipart { common, extension, .. } => (
+                            common,
+                            BodyContentSinglePart { id: None, md5: None, description: None, transfer_encoding: ContentEncoding::SevenBit, octets: 0 },
+                            extension,
+                        ),
+                    }
+                };
+                let parts = |seed: u64| {
+                    let (c1, o1, _) = split(seed);
+                    let fields = BodyFields { param: c1.ty.params, id: o1.id, description: o1.description, transfer_encoding: o1.transfer_encoding, octets: o1.octets };
+                    let (c2, o2, x2) = split(seed);
+                    let e1 = BodyExt1Part { md5: o2.md5, disposition: c2.disposition, language: c2.language, location: c2.location, extension: x2 };
+                    let (c3, _, x3) = split(seed);
+                    let em = BodyExtMPart { param: c3.ty.params, disposition: c3.disposition, language: c3.language, location: c3.location, extension: x3 };
+                    (fields, e1, em)
+                };
+                let rebuild = |f: BodyFields<'static>, e1: BodyExt1Part<'static>, em: BodyExtMPart<'static>| -> String {
+                    let a = BodyStructure::Basic {
+                        common: BodyContentCommon {
+                            ty: ContentType { ty: "A".into(), subtype: "B".into(), params: f.param },
+                            disposition: e1.disposition,
+                            language: e1.language,
+                            location: e1.location,
+                        },
+                        other: BodyContentSinglePart { id: f.id, md5: e1.md5, description: f.description, transfer_encoding: f.transfer_encoding, octets: f.octets },
+                        extension: e1.extension,
+                    };
+                    let b = BodyStructure::Multipart {
+                        common: BodyContentCommon {
+                            ty: ContentType { ty: "M".into(), subtype: "X".into(), params: em.param },
+                            disposition: em.disposition,
+                            language: em.language,
+                            location: em.location,
+                        },
+                        bodies: vec![],
+                        extension: em.extension,
+                    };
+                    format!("{} {}", ser::body_structure(&a), ser::body_structure(&b))
+                };
+                let (f1, a1, m1) = parts(s ^ 0x5151);
+                let (f2, a2, m2) = parts(s ^ 0x5151);
+                let got = rebuild(f1.into_owned(), a1.into_owned(), m1.into_owned());
+                let want = rebuild(f2, a2, m2);
+                (want, got)
+            });
+            if let Ok((want, got)) = r {
+                ctx.log.evaluations += 1;
+                ctx.log.count("c15:body-building-blocks");
+                ctx.log.nontrivial(&want);
+                if want != got {
+                    ctx.fail(
+                        "owned-differs",
+                        format!("into_owned of BodyFields / BodyExt1Part / BodyExtMPart changed a value: before {} after {}", clip(&want), clip(&got)),
+                        &format!("gen-parts {}", s ^ 0x5151),
+                    );
+                }
+            }
+        }
     }
     if shard == 0 {
         for s in SEEDS {
